@@ -20,6 +20,10 @@
 (*   I3 an inner error surfaces with its kind; never Ok                     *)
 (*   I4 Err(Interrupted) from write leaves nothing delivered and the state  *)
 (*      as before the call (the retry is judged from the same judge state)  *)
+(*   I5 progress: Ok(0) for a non-empty buffer only if the inner writer    *)
+(*      itself accepted nothing of a non-empty piece (otherwise the        *)
+(*      protocol-following caller - write_all: WriteZero - never "ends up  *)
+(*      having delivered" the input)                                        *)
 (* It does not prescribe how many inner writes a call makes.                *)
 (*                                                                         *)
 (* ALGORITHM LAYER (design + named deviations; MC_StripStream).             *)
@@ -64,6 +68,7 @@ CallOk(j, e) ==
            LET m == e.ret[2] IN
            IF m > n \/ (\E k \in 1..Len(inner) : IsErr(inner[k][3]))
               \/ (\E i \in (m + 1)..n : AcceptedAt(inner, i))
+              \/ (m = 0 /\ n > 0 /\ ~HasZero(inner))          \* I5 progress
            THEN <<FALSE, j>>
            ELSE LET res == JudgePrefix(j, e.buf, inner, m) IN <<res[2] = 0, res[1]>>
         ELSE <<kind \in {"eI", "eW", "eO"} /\ HasErr(inner, kind) /\ (kind = "eI" => ~AnyAccepted(inner)), j>>
